@@ -83,6 +83,9 @@ guard_item('g_vq_rotate', VQ, 'VectorQuantize.forward', stmt_calls('rotate_to'),
 guard_item('g_vq_commit', VQ, 'VectorQuantize.forward',
            lambda s: isinstance(s, ast.Assign) and ast.unparse(s.targets[0]) == 'loss' and 'commit_loss * self.commitment_weight' in ast.unparse(s.value),
            'loss = loss + commit_loss * self.commitment_weight')
+guard_item('g_lfq_commit', LFQF, 'LFQ.forward',
+           lambda s: isinstance(s, ast.Assign) and ast.unparse(s.targets[0]) == 'commit_loss' and 'F.mse_loss' in ast.unparse(s.value),
+           'commit_loss = F.mse_loss(original_input, quantized.detach(), ...): gated on the LIVE weight attribute')
 guard_item('g_rvq_shared_update', RVQ, 'ResidualVQ.forward', stmt_calls('shared_layer._codebook.update_ema'), 'shared update_ema()')
 guard_item('g_rvq_shared_expire', RVQ, 'ResidualVQ.forward', stmt_calls('shared_layer.expire_codes_'), 'shared expire_codes_()')
 guard_item('g_rvq_shared_opt', RVQ, 'ResidualVQ.forward', stmt_calls('shared_layer.update_in_place_optimizer'), 'shared update_in_place_optimizer()')
@@ -704,6 +707,7 @@ def _():
             'kmeans.clamp:' + ast.unparse(assigned_expr(VQ, 'kmeans', 'bins_min_clamped')) + ' ; ' + ast.unparse(assigned_expr(VQ, 'kmeans', 'zero_mask')),
             'lfq.log:' + ast.unparse(return_expr(LFQF, 'log')) + ' | defaults ' + ', '.join(ast.unparse(d) for d in find_func(LFQF, 'log').args.defaults),
             'fsq.bound:' + ' ; '.join(ast.unparse(n) for n in find_func(FSQF, 'FSQ.bound').body if not isinstance(n, ast.Expr)) + ' | eps default ' + ', '.join(ast.unparse(d) for d in find_func(FSQF, 'FSQ.bound').args.defaults),
+            'lfq.cosine_sim_linear:' + ' ; '.join(ast.unparse(n).replace('\n', ' ') for n in find_func(LFQF, 'CosineSimLinear.forward').body if not isinstance(n, ast.Expr)),
             'rotate_to:' + ' ; '.join(ast.unparse(n).replace('\n', ' ') for n in find_func(VQ, 'rotate_to').body if 'safe_div' in ast.unparse(n) or 'norm' in ast.unparse(n))]
     return G.emit_strings('p_clamps', rows, 'clamps / eps (pinned shape)')
 
@@ -922,6 +926,10 @@ FOOTPRINT = {
             (RSVQ, 'ResidualSimVQ.__init__'), (RSVQ, 'ResidualSimVQ.forward'), (RSVQ, 'ResidualSimVQ.get_codes_from_indices')],
 }
 
+# whatever depends on LFQ.forward also depends on the optional cosine-similarity input projection it calls (seed C18-e lived there)
+for _pid, _fns in FOOTPRINT.items():
+    if (LFQF, 'LFQ.forward') in _fns and (LFQF, 'CosineSimLinear.forward') not in _fns:
+        _fns.append((LFQF, 'CosineSimLinear.forward'))
 
 def _footprint_item(pid):
     rows = []
